@@ -1,9 +1,34 @@
 """C19 — Collections read from EnergyPlus SQLite results equal the rows in the database.
 
-Model: lean/Ladybug/Model/Sql.lean; theorems: lean/Ladybug/Props/C19.lean; driver: drv_c19.
+Model: lean/Ladybug/Model/Sql.lean (pure queries) + Model/SqlObj.lean (object state machine of
+SQLiteResult: lazily filled slots, requests as `Op`, `step`); theorems: lean/Ladybug/Props/C19.lean;
+driver: drv_c19.
 Tie: correspondence (model vs ladybug/sql.py) on synthetic SQLite databases written by this module
-with the EnergyPlus schema, on the shipped result files, and on the static partition helpers.
-Oracle: the property statement evaluated with direct SELECTs per key and run period.
+with the EnergyPlus schema, on the shipped result files, on the static partition helpers, and on
+request HISTORIES on one object (driver op `hist`, executed by `Sql.step`, compared step by step).
+Oracle: the property statement evaluated with direct SELECTs per key and run period; histories on
+one object (queries, property reads, refused requests, the same question twice), and slices of the
+stream re-run in fresh Python subprocesses in other orders (op `process`).
+
+Producers and their consumers in sql.py (every consumer is exercised by correspondence AND oracle):
+  _extract_run_period        <- data_collections_by_output_name (ops qall/collections),
+                                data_collections_by_output_name_run_period (qrp/run_period), op period
+  _extract_all_run_period    <- data_collections_by_output_name with several environments
+                                (single-frequency AND mixed-frequency Time tables, families mixedN)
+  _data_type_from_unit       <- both collection queries (header data type/unit), and
+                                _extract_available_outputs -> available_outputs_info (op read), op dtype
+  _partition_timeseries      <- all-periods query with one environment; run-period query, non-J units
+  _partition_and_convert_timeseries        <- run-period query of J outputs
+  _partition_timeseries_chunks             <- all-periods query with several environments
+  _partition_and_convert_timeseries_chunks <- no caller inside sql.py (public static helper): ops partcconv
+  _accumulate                <- both chunk partitions, op accum
+  dictionary query + frequency filter (three copies) <- values_by_output_name (vals/values), both
+                                collection queries; name as str, 1-tuple, list, list object (unchanged after)
+  _extract_available_outputs <- available_outputs, available_outputs_info, reporting_frequency (op read)
+  _extract_timestep          <- reporting_frequency of 'Zone Timestep' files
+  _extract_full_run_period_indices <- run_period_indices (op read)
+  lazily filled slots (_reporting_frequency, _available_outputs(_info), _run_period_indices) <- every
+                                property read; histories interleave them with queries and refused requests
 """
 import atexit
 import calendar
@@ -20,9 +45,9 @@ from harness.core import compare_batch, err_name, run_oracle_cases
 
 PROP = 'C19'
 PROOF_MODULES = ['Ladybug.Props.C19']
-GREP_MODULES = ['Ladybug.Py', 'Ladybug.Model.Cal', 'Ladybug.Model.Sql', 'Ladybug.Proofs.C19Lemmas',
-                'Ladybug.Proofs.C19Struct', 'Ladybug.Proofs.C19Time',
-                'Ladybug.Drv.C19', 'Ladybug.DrvCore']
+GREP_MODULES = ['Ladybug.Py', 'Ladybug.Model.Cal', 'Ladybug.Model.Sql', 'Ladybug.Model.SqlObj',
+                'Ladybug.Proofs.C19Lemmas', 'Ladybug.Proofs.C19Struct', 'Ladybug.Proofs.C19Time',
+                'Ladybug.Proofs.C19Obj', 'Ladybug.Drv.C19', 'Ladybug.DrvCore']
 RULE = ('synthetic EnergyPlus databases (tables ReportDataDictionary, ReportData, Time, EnvironmentPeriods, '
         'Simulations; schema copied from the shipped files): 1..3 outputs x 1..5 keys x 1..4 environments '
         '(design days with Year 0, run periods, leap years incl. 29 Feb, periods wrapping the year end) x '
@@ -30,10 +55,17 @@ RULE = ('synthetic EnergyPlus databases (tables ReportDataDictionary, ReportData
         'mixed-frequency Time tables, units J and 14 others, rows written in EnergyPlus order (Time rows in '
         'simulation order, ReportData rows per time index in dictionary-index order), values = distinct '
         'integer ids; queries: every output name as string, 1-tuple, name lists, absent names, every run-period '
-        'index; request histories (2-4 requests in random order over names / name lists / run-period indices '
-        'on ONE SQLiteResult, synthetic mixed-frequency databases and the shipped mixed files; oracle op '
-        '`history`, correspondence op `qhist`); plus the shipped files and the static partition helpers on '
-        'boundary lengths (n*T, n*T+-1, 0). '
+        'index; request histories on ONE SQLiteResult (3-8 steps in random order and repetition: the three '
+        'queries over names / name lists (tuple and list objects) / run-period indices, reads of '
+        'available_outputs, available_outputs_info, reporting_frequency, run_period_indices, and refused '
+        'requests - absent run period, argument of the wrong type, a name that breaks the SQL text, summary '
+        'tables the file lacks - each followed by further steps; strata: refused-first, read-first, '
+        'same-question-twice; oracle op `history`, correspondence ops `hist` (object state machine, step by '
+        'step) and `qhist`); process-order independence: slices of the oracle stream re-run in 3-4 fresh '
+        'Python subprocesses in other seeded orders (leap first, sub-hourly first, refused/history first, '
+        'reversed; op `process`); values = distinct integer ids, a quarter of the databases with an exact '
+        '0 among them; plus the shipped files and the static partition helpers on boundary lengths '
+        '(n*T, n*T+-1, 0). '
         'A case is non-trivial when the implementation returns a value; distinct = distinct (op, input).')
 TRUSTED_BASE = [
     'modelled, not verified: sqlite3 (WHERE = filter in rowid order, ORDER BY TimeIndex = stable sort, '
@@ -44,6 +76,13 @@ TRUSTED_BASE = [
     'EnergyPlus row order (per time index one row per key in dictionary-index order) is the generator\'s '
     'assumption, taken from the shipped files; SQL itself fixes no order inside one time index',
     'Time.Interval > 60 for interval types <= 1 is outside the model (driver answers `unmodelled`; never generated)',
+    'available_outputs(_info) are iterations of a Python set: compared as multisets; reporting_frequency of a file '
+    'with several frequency labels follows that iteration order: the model says `ambiguous`, the check then '
+    'demands a label of the file (or its steps per hour) and the same answer along a history',
+    'run_periods / run_period_names come from the summary-report tables (shipped files only): oracle only, not modelled',
+    'requests the code refuses for reasons outside the model (argument of the wrong type, a name that breaks the '
+    'formatted SQL text, a missing summary table) are the model\'s `malformed` request: compared only as '
+    '"refused", the steps after them are compared in full',
 ]
 ASSUMPTIONS = ['EnergyPlus writes ReportData in time order and, inside one time index, in dictionary-index order',
                'monthly Time rows carry the last day of their month (as in the shipped eplusout_openstudio.sql)',
@@ -114,7 +153,8 @@ def build_rows(spec):
     dict_rows.sort()
     time_rows = []      # (idx, year, month, day, hour, minute, interval, itype, simdays, env)
     data_rows = []      # (timeidx, dictidx, value)
-    ids = list(range(1, 1 + 4 * max(1, spec.get('nvals', 1))))
+    base = spec.get('idbase', 1)        # 0: one of the values is an exact zero (falsy)
+    ids = list(range(base, base + 4 * max(1, spec.get('nvals', 1))))
     import random
     rnd = random.Random(spec.get('idseed', 0))
     rnd.shuffle(ids)
@@ -161,6 +201,8 @@ def build_rows(spec):
 def write_db(path, dict_rows, time_rows, data_rows, envs):
     conn = sqlite3.connect(path)
     c = conn.cursor()
+    c.execute('PRAGMA synchronous=OFF')         # scratch files: no fsync per database
+    c.execute('PRAGMA journal_mode=OFF')
     for s in SCHEMA:
         c.execute(s)
     c.execute("INSERT INTO Simulations VALUES (1, 'EnergyPlus, Version 9.0', '2020.01.01 00:00', 6, 1, 1)")
@@ -421,6 +463,8 @@ def gen_spec(rng, family=None, big=False):
         outputs.append([s[0], s[1], s[2], s[3], ks])
     spec = {'year': year, 'steps': steps, 'freqs': freqs, 'envs': envs, 'outputs': outputs,
             'idseed': rng.randrange(10 ** 6), 'family': family}
+    if rng.random() < 0.25:
+        spec['idbase'] = 0
     # number of data rows (for the id pool)
     d, t, _ = build_rows(dict(spec, nvals=1, outputs=[]))
     per = {}
@@ -450,6 +494,10 @@ def spec_queries(rng, spec):
         qs.append(pick)
         if rng.random() < 0.3:
             qs.append(pick + ['No Such Output'])
+        if rng.random() < 0.15:
+            qs.append(['No Such Output'] + pick)
+    if rng.random() < 0.1:
+        qs.append([names[0], names[0]])
     r = rng.random()
     if r < 0.3:
         qs.append('No Such Output')
@@ -520,8 +568,8 @@ def fixed_specs():
 
 
 def finding_specs():
-    """Database descriptions of the defects found by this check: `mixed-multi` is still recorded in
-    known_findings.d/C19.json, the others were repaired (fixes/C19_*.patch) and stay as regression cases."""
+    """Database descriptions of the defects found by this check: all were repaired (fixes/C19_*.patch,
+    committed in /repo) and stay as regression cases."""
     def out(name, units, freq, keys, group='Zone'):
         return [name, group, units, freq, keys]
     k2 = [[7, 'ZONE_1'], [9, 'ZONE_2']]
@@ -825,6 +873,137 @@ def correspondence(ctx):
     rng.shuffle(hist)
     hist = hist[:ctx.n(80, 2500)]
     run_db_op('qhist', hist, impl_hist)
+    _hist_correspondence(ctx, [s for s in specs if s.get('nvals', 0) <= 4000])
+
+
+def _hist_line_and_steps(rng, spec):
+    """A request history for the object state machine: driver tokens and the steps for the real object."""
+    names = []
+    for o in spec['outputs']:
+        if o[0] not in names:
+            names.append(o[0])
+    envs = [e[0] for e in spec['envs']]
+    stratum = rng.choice([None, None, 'refused-first', 'read-first', 'twice', 'frequency-twice', 'each-name'])
+    steps = _history_steps(rng, names, envs, rng.randint(3, 8), stratum)
+    toks = []
+    for st in steps:
+        i = st['inp']
+        if st['op'] == 'collections':
+            toks.append('qa ' + _query_tokens(i['q']))
+        elif st['op'] == 'values':
+            toks.append('qv ' + _query_tokens(i['q']))
+        elif st['op'] == 'run_period':
+            toks.append('qr %s %d' % (enc(i['q']), i['env']))
+        elif st['op'] == 'read':
+            toks.append({'available_outputs': 'ao', 'available_outputs_info': 'ai', 'reporting_frequency': 'rf',
+                         'run_period_indices': 'ri'}[i['attr']])
+        elif i['call'] == 'rp_absent_env':
+            toks.append('qr %s %d' % (enc(i['q']), i['env']))
+        else:
+            toks.append('bad')
+    return steps, 'hist %d %s' % (len(steps), ' '.join(toks))
+
+
+def _canon_hist_step(tok_str):
+    """Order-free parts (set iterations) are sorted; values become doubles."""
+    t = tok_str.split()
+    if t[:2] == ['ok', 'names'] or t[:2] == ['ok', 'infos']:
+        return ' '.join(t[:3] + sorted(t[3:]))
+    return _norm_ws(canon(tok_str))
+
+
+def _impl_hist_step(obj, st):
+    i = st['inp']
+    if st['op'] == 'collections':
+        q = i['q']
+        arg = q if isinstance(q, str) else (list(q) if i.get('as_list') else tuple(q))
+        r = _show_result(obj.data_collections_by_output_name(arg))
+        return r if isinstance(arg, str) or list(arg) == list(q) else 'argument-changed %s' % arg
+    if st['op'] == 'values':
+        q = i['q']
+        arg = q if isinstance(q, str) else (list(q) if i.get('as_list') else tuple(q))
+        r = _norm_ws('ok ' + ' '.join(_fval(v) for v in obj.values_by_output_name(arg)))
+        return r if isinstance(arg, str) or list(arg) == list(q) else 'argument-changed %s' % arg
+    if st['op'] == 'run_period':
+        return _show_result(obj.data_collections_by_output_name_run_period(i['q'], i['env']))
+    if st['op'] == 'read':
+        v = getattr(obj, i['attr'])
+        if i['attr'] == 'available_outputs':
+            return 'ok names %d %s' % (len(v), ' '.join(enc(x) for x in v))
+        if i['attr'] == 'run_period_indices':
+            return _norm_ws('ok ri %d %s' % (len(v), ' '.join(str(x) for x in v)))
+        if i['attr'] == 'reporting_frequency':
+            if v is None:
+                return 'ok rf none'
+            return 'ok rf steps %d' % v if isinstance(v, int) else 'ok rf label ' + enc(v)
+        toks = []
+        for d in v:
+            dt = d['data_type']
+            dtok = ('generic:' + enc(dt.name)) if type(dt).__name__ == 'GenericType' else 'base:' + enc(type(dt).__name__)
+            toks.append('%s|%s|%s|%s' % (enc(d['output_name']), enc(d['object_type']), enc(d['units']), dtok))
+        return 'ok infos %d %s' % (len(v), ' '.join(toks))
+    # refused requests
+    if i['call'] == 'rp_absent_env':
+        return _show_result(obj.data_collections_by_output_name_run_period(i['q'], i['env']))
+    if i['call'] == 'bad_type':
+        r = getattr(obj, i.get('method', 'data_collections_by_output_name'))(i.get('arg', 5))
+    elif i['call'] == 'quote_list':
+        r = obj.data_collections_by_output_name(tuple(list(i['q']) + [BREAKING_NAME]))
+    else:
+        r = getattr(obj, i.get('attr', 'run_periods'))
+    return 'accepted ' + str(r)[:80]
+
+
+def _hist_correspondence(ctx, specs):
+    """Object state machine vs one real SQLiteResult, step by step (driver op `hist`)."""
+    from ladybug.sql import SQLiteResult
+    rng = ctx.rng
+    pick = list(specs)
+    rng.shuffle(pick)
+    fixed = [s for s in specs if s.get('family') in ('fixed', 'finding')]
+    pick = fixed + [s for s in pick if s not in fixed][:ctx.n(36, 1200)]
+    cases = []
+    for s in pick:
+        steps, head = _hist_line_and_steps(rng, s)
+        cases.append((s, steps, head))
+    lines = [head + ' ' + _model_db_line(s)[0] for s, steps, head in cases]
+    outs = ctx.driver().run(lines)
+    for (s, steps, head), mo in zip(cases, outs):
+        msteps = mo.split(' ;; ')
+        obj = SQLiteResult(db_for(s)['path'])
+        labels = sorted(set(FREQ_LABEL[o[3]] for o in s['outputs']))
+        allowed = ['ok rf steps %d' % s['steps'] if 'Timestep' in l else 'ok rf label ' + enc(l) for l in labels]
+        ctx.compared += 1
+        ctx.count('op:hist')
+        ctx.count('hist:steps', len(steps))
+        short = {'db': s, 'steps': steps}
+        bad = None
+        if len(msteps) != len(steps):
+            bad = (-1, mo[:300], 'history of %d steps' % len(steps))
+        for k, (st, m) in enumerate(zip(steps, msteps)):
+            if bad:
+                break
+            try:
+                io = _impl_hist_step(obj, st)
+            except Exception as e:
+                io = 'err:' + err_name(e)
+            refused_kind = st['op'] == 'refused' and st['inp']['call'] != 'rp_absent_env'
+            if refused_kind:
+                # the model's `malformed` request: all that matters is that the code refuses it too
+                m2, io2 = ('refused', 'refused') if io.startswith('err:') else ('refused', io)
+            else:
+                m2, io2 = _canon_hist_step(m), _canon_hist_step(io)
+                if m2.endswith(' ambiguous'):
+                    # several frequency labels: the answer follows a set iteration; any label of the file
+                    m2 = io2 if io2 in allowed else 'one of ' + ' / '.join(allowed)
+            ctx.count('hist:step=' + (st['inp'].get('attr') or st['inp'].get('call') or st['op']))
+            if m2 != io2:
+                bad = (k, m2[:400], io2[:400])
+        ctx.case(('hist', json.dumps(short, sort_keys=True)), nontrivial=True)
+        if bad:
+            ctx.disagree('hist', dict(short, step=bad[0]), bad[1], bad[2])
+    if cases:
+        ctx.sample({'op': 'hist', 'request': lines[0][:300], 'model': outs[0][:300]})
 
 
 # ---------------------------------------------------------------------------------------------
@@ -995,6 +1174,156 @@ def _facts(src, groups, order, names):
 
 
 _SHARED = {}        # path -> SQLiteResult used by every request of the history under evaluation
+_HIST_READS = {}    # (path, attr) -> first answer of that property read in the history under evaluation
+
+# unit -> ladybug base data type, written down from the EnergyPlus units this module generates
+# (independent of ladybug.datatype.UNITS; None = a unit ladybug does not know: GenericType, unit kept)
+UNIT_TYPE = {'J': 'Energy', 'kWh': 'Energy', 'C': 'Temperature', 'W': 'Power', '%': 'Fraction', '': 'Fraction',
+             'W/m2': 'EnergyFlux', 'm3/s': 'VolumeFlowRate', 'kg/s': 'MassFlowRate', 'Pa': 'Pressure',
+             'lux': 'Illuminance', 'hr': 'Time', 'W/m2-K': 'UValue', 'ach': None, 'ppm': None}
+BREAKING_NAME = 'a\'b"c'     # formatted into the IN (...) text it breaks the statement: sqlite refuses
+SUMMARY_ATTRS = ['run_periods', 'run_period_names']     # from the summary reports (shipped files only)
+READ_ATTRS = ['available_outputs', 'available_outputs_info', 'reporting_frequency', 'run_period_indices']
+
+
+def _freeze(x):
+    """A comparable, printable image of a property value."""
+    if isinstance(x, dict):
+        return sorted((k, type(v).__name__ if hasattr(v, 'units') and not isinstance(v, str) else _freeze(v))
+                      for k, v in x.items())
+    if isinstance(x, (list, tuple)):
+        return sorted((_freeze(v) for v in x), key=repr)
+    return x
+
+
+def _check_read(path, attr, fail):
+    """A property read against direct SELECTs."""
+    conn = sqlite3.connect(path)
+    c = conn.cursor()
+    c.execute('SELECT DISTINCT Name, IndexGroup, Units, ReportingFrequency FROM ReportDataDictionary')
+    tuples = c.fetchall()
+    c.execute('SELECT DISTINCT EnvironmentPeriodIndex FROM Time ORDER BY 1')
+    envs = [r[0] for r in c.fetchall()]
+    c.execute('SELECT Interval FROM Time ORDER BY TimeIndex LIMIT 1')
+    first = c.fetchone()
+    summary = None
+    if attr in SUMMARY_ATTRS:
+        try:        # the 'Environment' table of the summary reports, read by column name
+            c.execute("SELECT RowName, ColumnName, Value FROM TabularDataWithStrings WHERE TableName='Environment'")
+            rows = {}
+            for rn, cn, v in c.fetchall():
+                rows.setdefault(rn, {})[cn] = v
+            summary = []
+            for rn, cols in rows.items():
+                st = [int(x) for x in cols['Start Date'].split('/')]
+                en = [int(x) for x in cols['End Date'].split('/')]
+                summary.append((cols.get('Environment Name'),
+                                (st[0], st[1], 0, en[0], en[1], 23, len(st) == 3 and st[2] % 4 == 0)))
+        except Exception:
+            summary = None
+    conn.close()
+    obj = _sql(path)
+    try:
+        got = getattr(obj, attr)
+    except Exception as e:
+        if attr in SUMMARY_ATTRS and not summary:
+            return None         # the file has no such summary table: nothing to read
+        return fail('exception', attr, '%s raises %s: %s' % (attr, type(e).__name__, e), exc=type(e).__name__,
+                    attr=attr)
+    res = None
+    if attr in SUMMARY_ATTRS:
+        if summary:
+            if attr == 'run_period_names':
+                want, gl = [x[0] for x in summary], list(got)
+            else:
+                want = [x[1] for x in summary]
+                gl = [(a.st_month, a.st_day, a.st_hour, a.end_month, a.end_day, a.end_hour, bool(a.is_leap_year))
+                      for a in got]
+            if gl != want:
+                res = fail('read', 'the environments of the summary table: %s' % want[:4], 'got %s' % gl[:4], attr=attr)
+        got = [str(x) for x in got]
+    elif attr == 'available_outputs':
+        want = sorted(t[0] for t in tuples)
+        if sorted(got) != want:
+            res = fail('read', 'one name per distinct dictionary output: %s' % want[:6], 'got %s' % sorted(got)[:6],
+                       attr=attr)
+    elif attr == 'run_period_indices':
+        if list(got) != envs:
+            res = fail('read', 'environment indices of the Time table %s' % envs, 'got %s' % (list(got),), attr=attr)
+    elif attr == 'reporting_frequency':
+        allowed = []
+        for t in tuples:
+            if 'Timestep' in t[3]:
+                allowed.append(int(60 // first[0]) if first and first[0] else None)
+            else:
+                allowed.append(t[3])
+        if not tuples:
+            allowed = [None]
+        if got not in allowed or isinstance(got, bool):
+            res = fail('read', 'a reporting frequency of the dictionary: one of %s' % sorted(set(map(str, allowed))),
+                       'got %r' % (got,), attr=attr)
+    else:
+        want = []
+        for t in tuples:
+            unit = 'kWh' if t[2] == 'J' else ('fraction' if t[2] == '' else t[2])
+            want.append((t[0], t[1], unit, UNIT_TYPE.get(t[2], '?')))
+        gl = []
+        for d in got:
+            dt = d.get('data_type')
+            gl.append((d.get('output_name'), d.get('object_type'), d.get('units'), type(dt).__name__,
+                       getattr(dt, 'name', None)))
+        if sorted(g[:3] for g in gl) != sorted(w[:3] for w in want):
+            res = fail('read', 'name, object type and unit (J as kWh) of every dictionary output: %s'
+                       % sorted(w[:3] for w in want)[:4], 'got %s' % sorted(g[:3] for g in gl)[:4], attr=attr)
+        else:
+            wt = {}
+            for w in want:
+                wt.setdefault(w[:3], w[3])
+            for g in gl:
+                t = wt[g[:3]]
+                if t == '?':
+                    continue
+                if (t is None and (g[3] != 'GenericType' or g[4] != g[0])) or (t is not None and g[3] != t):
+                    res = fail('unit', 'data type %s for unit %r of %s' % (t or 'GenericType named after the output',
+                                                                            g[2], g[0]),
+                               'got %s (%s)' % (g[3], g[4]), attr=attr)
+                    break
+    if res is None and path in _SHARED:
+        img = _freeze(got)
+        first_img = _HIST_READS.setdefault((path, attr), img)
+        if first_img != img:
+            res = fail('read_changed', '%s answers the same along a history on one object' % attr,
+                       'first %s, now %s' % (str(first_img)[:120], str(img)[:120]), attr=attr)
+    return res
+
+
+def _check_refused(path, inp, fail):
+    """A request the code refuses (or answers with nothing).  Whatever it does, it must not hand out
+    data the database does not hold for that request; the steps that follow it in a history are
+    checked by the ordinary oracle."""
+    call = inp['call']
+    if call not in ('rp_absent_env', 'bad_type', 'quote_list', 'summary_table'):
+        raise ValueError('unknown refused call ' + call)
+    obj = _sql(path)
+    q = inp.get('q')
+    try:
+        if call == 'rp_absent_env':
+            r = obj.data_collections_by_output_name_run_period(q, inp['env'])
+        elif call == 'bad_type':
+            r = getattr(obj, inp.get('method', 'data_collections_by_output_name'))(inp.get('arg', 5))
+        elif call == 'quote_list':
+            r = obj.data_collections_by_output_name(tuple(list(q) + [BREAKING_NAME]))
+        else:
+            getattr(obj, inp.get('attr', 'run_periods'))
+            return None     # summary tables are not part of the property: only the later steps matter
+    except Exception:
+        return None         # refused: fine
+    if call == 'quote_list':
+        return check_case('collections', {'db': inp['db'], 'q': list(q) + [BREAKING_NAME]})
+    if r is None or list(r) == []:
+        return None
+    return fail('refused', 'nothing (or an error) for %s' % call,
+                '%s returned %d items: %s' % (call, len(r), str(r)[:100]), call=call)
 
 
 def _sql(path):
@@ -1012,6 +1341,7 @@ def _check_history(inp):
     src = inp['db']
     path = db_for(src)['path']
     _SHARED.clear()
+    _HIST_READS.clear()
     _SHARED[path] = SQLiteResult(path)
     try:
         for i, st in enumerate(inp['steps']):
@@ -1030,18 +1360,23 @@ def _check_history(inp):
                         'sig': sig}
     finally:
         _SHARED.clear()
+        _HIST_READS.clear()
     return None
 
 
 def check_case(op, inp):
     if op == 'history':
         return _check_history(inp)
+    if op == 'process':
+        return _check_process(inp)
     src = inp['db']
     info = db_for(src)
     path = info['path']
     q = inp.get('q')
     names = [q] if isinstance(q, str) else list(q or [])
-    arg = q if isinstance(q, str) else tuple(q or [])
+    arg = q if isinstance(q, str) else (list(q or []) if inp.get('as_list') else tuple(q or []))
+    if op in ('read', 'refused'):
+        names = []
     groups, order = _expected_groups(path, names)
     facts = _facts(src, groups, order, names)
 
@@ -1052,6 +1387,11 @@ def check_case(op, inp):
         if 'exc_obj' in sig:
             sig['msg'] = ' '.join(re.sub(r'[^A-Za-z_ ]+', ' ', str(sig.pop('exc_obj'))).split('Got')[0].split())[:48]
         return {'required': required, 'observed': observed, 'sig': sig}
+
+    if op == 'read':
+        return _check_read(path, inp['attr'], fail)
+    if op == 'refused':
+        return _check_refused(path, inp, fail)
 
     if op == 'absent':
         for meth in ('data_collections_by_output_name', 'values_by_output_name'):
@@ -1076,6 +1416,8 @@ def check_case(op, inp):
             return check_case('absent', inp)
         try:
             res = _sql(path).data_collections_by_output_name(arg)
+            if isinstance(arg, list) and arg != names:
+                return fail('argument', 'the caller\'s name list stays %s' % names, 'it is now %s' % arg)
         except Exception as e:
             freq = order[0]
             return fail('exception', 'collections of %s' % names, 'raises %s: %s' % (type(e).__name__, e),
@@ -1168,6 +1510,8 @@ def check_case(op, inp):
     if op == 'values':
         try:
             res = _sql(path).values_by_output_name(arg)
+            if isinstance(arg, list) and arg != names:
+                return fail('argument', 'the caller\'s name list stays %s' % names, 'it is now %s' % arg)
         except Exception as e:
             return fail('exception', 'values', 'raises %s: %s' % (type(e).__name__, e), exc=type(e).__name__, exc_obj=e)
         for f in order:
@@ -1203,13 +1547,81 @@ def check_case(op, inp):
 replay = check_case
 
 
+# ---------------------------------------------------------------------------------------------
+# process-order independence: the same cases in a fresh Python process, in another order
+
+_WORKER = ('import sys, json; sys.path.insert(0, %r); from harness import core; sys.path.insert(0, core.REPO); '
+           'from harness.props import c19; c19._worker_main()')
+
+
+def _worker_main():
+    """Runs in the subprocess: evaluate the (op, input) pairs read from stdin in the given order."""
+    import sys
+    order = json.load(sys.stdin)
+    out = []
+    for op, inp in order:
+        try:
+            r = check_case(op, inp)
+        except Exception as e:
+            r = {'required': 'oracle evaluates', 'observed': 'exception %s: %s' % (type(e).__name__, e),
+                 'sig': {'exception': type(e).__name__}}
+        out.append(r)
+    sys.stdout.write('\n@@RESULT@@' + json.dumps(out, default=str))
+
+
+def _run_in_fresh_process(order, hashseed=0):
+    import subprocess
+    import sys
+    env = dict(os.environ, LADYBUG_REPO=core.REPO, PYTHONHASHSEED=str(hashseed))
+    p = subprocess.run([sys.executable, '-c', _WORKER % core.ROOT], input=json.dumps(order).encode(),
+                       stdout=subprocess.PIPE, stderr=subprocess.PIPE, env=env, timeout=600)
+    txt = p.stdout.decode('utf-8', 'replace')
+    if '@@RESULT@@' not in txt:
+        raise RuntimeError('worker failed: ' + p.stderr.decode('utf-8', 'replace')[-600:])
+    return json.loads(txt.split('@@RESULT@@')[1])
+
+
+def _check_process(inp):
+    """`order`: (op, input) pairs evaluated one after the other in ONE fresh Python process.  Every
+    case must hold there as it does alone: class- and module-level state must not carry anything from
+    one file / request to the next."""
+    order = [list(x) for x in inp['order']]
+    hs = inp.get('hashseed', 0)
+    res = _run_in_fresh_process(order, hs)
+    for i, r in enumerate(res):
+        if r:
+            alone = _run_in_fresh_process([order[i]], hs)[0]
+            sig = dict(r.get('sig') or {})
+            sig.update({'process_index': i, 'inner_op': order[i][0], 'alone_ok': not alone})
+            return {'required': 'case %d of the order (%s) in a fresh process: %s'
+                                % (i, order[i][0], r.get('required')),
+                    'observed': '%s  [the same case alone in a fresh process: %s]'
+                                % (r.get('observed'), 'fails too' if alone else 'ok'),
+                    'sig': sig}
+    return None
+
+
+def _shrink_process(order, hs=0):
+    """A short order that still fails: the failing case alone, a pair (earlier case, failing case), or
+    the prefix up to the failing case."""
+    res = _run_in_fresh_process(order, hs)
+    bad = [i for i, r in enumerate(res) if r]
+    if not bad:
+        return order
+    i = bad[0]
+    if _run_in_fresh_process([order[i]], hs)[0]:
+        return [order[i]]
+    for j in range(i - 1, max(-1, i - 25), -1):
+        if _run_in_fresh_process([order[j], order[i]], hs)[1]:
+            return [order[j], order[i]]
+    return order[:i + 1]
+
+
 def finding_cases():
     """(op, input) pairs of the recorded findings: the `example_input`s of known_findings.d/C19.json."""
     S = finding_specs()
     lights, mrt = 'Zone Lights Electric Energy', 'Zone Mean Radiant Temperature'
-    return [
-        ('collections', {'db': S['mixed-multi'], 'q': lights}),
-    ]
+    return []
 
 
 def regression_cases():
@@ -1224,23 +1636,86 @@ def regression_cases():
         ('run_period', {'db': S['feb29'], 'q': lights, 'env': 8}),
         ('collections', {'db': S['annual-multi'], 'q': lights}),
         ('run_period', {'db': S['annual-multi'], 'q': lights, 'env': 2}),
+        # repaired by fixes/C19_all_run_periods_own_interval_type.patch (/repo c9ccd82)
+        ('collections', {'db': S['mixed-multi'], 'q': lights}),
+        ('collections', {'db': S['mixed-multi'], 'q': mrt}),
+        ('run_period', {'db': S['mixed-multi'], 'q': lights, 'env': 2}),
     ]
 
 
-def _history_steps(rng, names, envs, k):
-    """k requests over different output names / name lists / run-period indices, in random order."""
-    steps = []
-    for _ in range(k):
+def _history_steps(rng, names, envs, k, stratum=None, summary=False):
+    """k steps on one object, in random order and repetition: queries over output names / name lists
+    (tuple or list object) / run-period indices, property reads, refused requests.  Strata:
+    'refused-first', 'read-first', 'frequency-twice' (reporting_frequency read, then read again),
+    'each-name' (every output of the file for all periods, then two of them per run period),
+    'twice' (the same question asked twice in a row)."""
+    absent_env = max(envs) + rng.choice([1, 7, 90])
+
+    def query():
         r = rng.random()
         n = rng.choice(names)
-        if r < 0.55:
+        if r < 0.45:
+            return {'op': 'collections', 'inp': {'q': n}}
+        if r < 0.6 and len(names) > 1:
+            st = {'op': 'collections', 'inp': {'q': rng.sample(names, 2)}}
+            if rng.random() < 0.5:
+                st['inp']['as_list'] = True
+            return st
+        if r < 0.85:
+            return {'op': 'run_period', 'inp': {'q': n, 'env': rng.choice(envs)}}
+        if rng.random() < 0.4 and len(names) > 1:
+            return {'op': 'values', 'inp': {'q': rng.sample(names, 2), 'as_list': rng.random() < 0.5}}
+        return {'op': 'values', 'inp': {'q': n}}
+
+    def read():
+        return {'op': 'read', 'inp': {'attr': rng.choice(READ_ATTRS + (SUMMARY_ATTRS if summary else []))}}
+
+    def refused():
+        r = rng.random()
+        n = rng.choice(names)
+        if r < 0.4:
+            return {'op': 'refused', 'inp': {'call': 'rp_absent_env', 'q': n, 'env': absent_env}}
+        if r < 0.6:
+            return {'op': 'refused', 'inp': {'call': 'bad_type', 'arg': rng.choice([5, None, 2.5]),
+                                             'method': rng.choice(['data_collections_by_output_name',
+                                                                   'values_by_output_name'])}}
+        if r < 0.8:
+            return {'op': 'refused', 'inp': {'call': 'quote_list', 'q': [n]}}
+        return {'op': 'refused', 'inp': {'call': 'summary_table',
+                                         'attr': rng.choice(['run_periods', 'run_period_names', 'location'])}}
+
+    steps = []
+    if stratum == 'refused-first':
+        steps.append(refused())
+    elif stratum == 'read-first':
+        steps.append(read())
+        if rng.random() < 0.5:
+            steps.append(read())
+    elif stratum == 'each-name':
+        # every output of the file asked for all periods, one after the other (different frequencies of a
+        # mixed file meet on one object), then per run period
+        order = list(names)
+        rng.shuffle(order)
+        order = order[:5]
+        for n in order:
             steps.append({'op': 'collections', 'inp': {'q': n}})
-        elif r < 0.7 and len(names) > 1:
-            steps.append({'op': 'collections', 'inp': {'q': rng.sample(names, 2)}})
-        elif r < 0.9:
+        steps.insert(rng.randint(0, len(steps)), read())
+        for n in order[:2]:
             steps.append({'op': 'run_period', 'inp': {'q': n, 'env': rng.choice(envs)}})
-        else:
-            steps.append({'op': 'values', 'inp': {'q': n}})
+        k = max(k, len(steps))
+    elif stratum == 'frequency-twice':
+        steps.append({'op': 'read', 'inp': {'attr': 'reporting_frequency'}})
+        if rng.random() < 0.5:
+            steps.append(read())
+        steps.append({'op': 'read', 'inp': {'attr': 'reporting_frequency'}})
+    while len(steps) < k:
+        r = rng.random()
+        st = query() if r < 0.55 else read() if r < 0.8 else refused()
+        steps.append(st)
+        if stratum == 'twice' and len(steps) < k and rng.random() < 0.5:
+            steps.append(json.loads(json.dumps(st)))
+    if steps[-1]['op'] == 'refused':
+        steps.append(query())       # a refused request is always followed by something observable
     return steps
 
 
@@ -1260,6 +1735,36 @@ def history_fixed():
         {'op': 'run_period', 'inp': {'q': 'Zone Lights Electric Energy', 'env': 8}},
         {'op': 'collections', 'inp': {'q': 'Electricity:Facility'}},
         {'op': 'collections', 'inp': {'q': 'Site Outdoor Air Drybulb Temperature'}}]})
+    # property reads between queries, refused requests followed by queries, the same question twice
+    lights, fac = 'Zone Lights Electric Energy', 'Electricity:Facility'
+    reads = [{'op': 'read', 'inp': {'attr': a}} for a in READ_ATTRS]
+    for db in (mixed, ship):
+        out.append({'db': db, 'steps': [reads[2], {'op': 'collections', 'inp': {'q': lights}}, reads[0],
+                                        {'op': 'collections', 'inp': {'q': fac}}, reads[2], reads[1], reads[3],
+                                        {'op': 'values', 'inp': {'q': lights}}, reads[2]]})
+        out.append({'db': db, 'steps': [
+            {'op': 'refused', 'inp': {'call': 'rp_absent_env', 'q': lights, 'env': 99}},
+            {'op': 'collections', 'inp': {'q': lights}},
+            {'op': 'refused', 'inp': {'call': 'bad_type', 'arg': 5}},
+            {'op': 'run_period', 'inp': {'q': lights, 'env': 8}},
+            {'op': 'refused', 'inp': {'call': 'quote_list', 'q': [fac]}},
+            {'op': 'collections', 'inp': {'q': fac}}, reads[0],
+            {'op': 'refused', 'inp': {'call': 'summary_table', 'attr': 'run_periods'}},
+            {'op': 'collections', 'inp': {'q': [lights, fac], 'as_list': True}},
+            {'op': 'collections', 'inp': {'q': lights}}, {'op': 'collections', 'inp': {'q': lights}}]})
+    # a timestep-only file: the frequency is converted to steps per hour on the first read
+    tsonly = [s for s in fixed_specs() if s['freqs'] == ['ts']]
+    for db in tsonly:
+        nm = db['outputs'][0][0]
+        out.append({'db': db, 'steps': [reads[2], reads[0], reads[2], reads[3], reads[2], reads[1], reads[2],
+                                        {'op': 'collections', 'inp': {'q': nm}}, reads[2]]})
+    multi = finding_specs()['mixed-multi']
+    mrt = 'Zone Mean Radiant Temperature'
+    out.append({'db': multi, 'steps': [{'op': 'collections', 'inp': {'q': mrt}}, reads[2],
+                                       {'op': 'collections', 'inp': {'q': lights}},
+                                       {'op': 'refused', 'inp': {'call': 'rp_absent_env', 'q': mrt, 'env': 5}},
+                                       {'op': 'run_period', 'inp': {'q': lights, 'env': 2}},
+                                       {'op': 'collections', 'inp': {'q': mrt}}]})
     return out
 
 
@@ -1274,11 +1779,12 @@ def _regions(spec, q, op):
     f0 = min(outs, key=lambda o: min(k[0] for k in o[4]))[3]      # frequency of the first dictionary row
     sel = [o for o in outs if o[3] == f0]
     nkeys = sum(len(o[4]) for o in sel)
-    reg = []
-    multi = len(spec['envs']) > 1
-    if multi and len(spec['freqs']) > 1:
-        reg.append('mixed-multi')
-    return reg
+    return []       # no recorded finding is left (the mixed-time-table defect was repaired)
+
+
+def _is_leap_case(inp):
+    db = inp.get('db', {})
+    return bool(db.get('year')) and calendar.isleap(db['year'])
 
 
 def _oracle_cases(ctx):
@@ -1288,33 +1794,43 @@ def _oracle_cases(ctx):
     n = ctx.n(36, 700) * (3 if ctx.searching else 1)
     for _ in range(n):
         specs.append(gen_spec(rng, big=not ctx.quick and rng.random() < 0.1))
-    seen = {}
+    pool = []           # cases that are re-run in fresh processes in other orders
+
+    def emit(op, inp, keep=1.0):
+        if len(json.dumps(inp)) < 6000 and rng.random() < keep:
+            pool.append((op, inp))
+        return op, inp
+
     for op, inp in finding_cases() + regression_cases():
-        yield op, inp
+        yield emit(op, inp)
     for si, s in enumerate(specs):
+        if 'idbase' in s:
+            ctx.count('oracle:db_with_zero_value')
         for q in spec_queries(rng, s):
             names = [q] if isinstance(q, str) else q
             present = any(o[0] in names for o in s['outputs'])
             if not present:
-                yield 'absent', {'db': s, 'q': q, 'env': s['envs'][0][0]}
+                yield emit('absent', {'db': s, 'q': q, 'env': s['envs'][0][0]}, 0.3)
                 continue
-            cases = [('collections', {'db': s, 'q': q})]
+            c0 = {'db': s, 'q': q}
+            if not isinstance(q, str) and rng.random() < 0.5:
+                c0['as_list'] = True
+                ctx.count('oracle:name_list_object')
+            cases = [('collections', c0)]
             if rng.random() < 0.5:
                 cases.append(('values', {'db': s, 'q': q}))
             if isinstance(q, str):
                 for e in s['envs']:
                     cases.append(('run_period', {'db': s, 'q': q, 'env': e[0]}))
             for op, inp in cases:
-                reg = _regions(s, q, op) if op != 'values' else []
-                if reg and si >= len(fixed):
-                    if any(seen.get(r, 0) >= 2 for r in reg):
-                        ctx.count('oracle:skipped_recorded_region')
-                        continue
-                    for r in reg:
-                        seen[r] = seen.get(r, 0) + 1
-                for r in reg:
-                    ctx.count('oracle:region=' + r)
-                yield op, inp
+                yield emit(op, inp, 0.25)
+        # property reads on a fresh object, refused requests
+        for a in (READ_ATTRS if si < len(fixed) or rng.random() < 0.5 else [rng.choice(READ_ATTRS)]):
+            yield emit('read', {'db': s, 'attr': a}, 0.3)
+        if rng.random() < 0.3:
+            nm = s['outputs'][0][0]
+            yield emit('refused', {'db': s, 'call': 'rp_absent_env', 'q': nm,
+                                   'env': max(e[0] for e in s['envs']) + rng.choice([1, 50])}, 0.3)
     for f in SHIPPED:
         src = {'file': f}
         try:
@@ -1332,6 +1848,8 @@ def _oracle_cases(ctx):
             yield 'values', {'db': src, 'q': nme}
             yield 'run_period', {'db': src, 'q': nme, 'env': rng.choice(envs)}
         yield 'absent', {'db': src, 'q': 'No Such Output', 'env': envs[0]}
+        for a in READ_ATTRS + SUMMARY_ATTRS:
+            yield emit('read', {'db': src, 'attr': a}, 0.5)
         same_units = {}
         for r in info['dict']:
             same_units.setdefault((r[4], r[5]), [])
@@ -1347,24 +1865,25 @@ def _oracle_cases(ctx):
             db_for(h['db'])
         except Exception:
             continue
-        yield 'history', h
-    for _ in range(ctx.n(10, 250) * (3 if ctx.searching else 1)):
-        fam = rng.choice(['mixed1', 'mixed1', 'mixed1', 'single', 'single', 'mixedN'])
+        yield emit('history', h)
+    for _ in range(ctx.n(30, 600) * (3 if ctx.searching else 1)):
+        fam = rng.choice(['mixed1', 'mixed1', 'mixed1', 'single', 'single', 'mixedN', 'mixedN'])
         s = gen_spec(rng, family=fam)
-        if fam == 'mixedN' and seen.get('mixed-multi', 0) >= 2:
-            continue
         names = []
         for o in s['outputs']:
             if o[0] not in names:
                 names.append(o[0])
         envs = [e[0] for e in s['envs']]
-        h = {'db': s, 'steps': _history_steps(rng, names, envs, rng.randint(2, 4))}
-        if fam == 'mixedN':
-            seen['mixed-multi'] = seen.get('mixed-multi', 0) + 1
+        stratum = rng.choice([None, None, 'refused-first', 'read-first', 'twice', 'frequency-twice', 'each-name'])
+        h = {'db': s, 'steps': _history_steps(rng, names, envs, rng.randint(3, 8), stratum)}
         ctx.count('history:family=%s' % fam)
+        ctx.count('history:stratum=%s' % stratum)
         ctx.count('history:steps=%d' % len(h['steps']))
-        yield 'history', h
-    for f in ('eplusout_openstudio.sql', 'eplusout_dday_runper.sql', 'eplusout_hourly.sql'):
+        for st in h['steps']:
+            ctx.count('history:step=%s' % (st['inp'].get('attr') or st['inp'].get('call') or st['op']))
+        yield emit('history', h, 0.4)
+    for f in ('eplusout_openstudio.sql', 'eplusout_dday_runper.sql', 'eplusout_hourly.sql',
+              'eplusout_timestep.sql', 'eplusout_monthly.sql'):
         src = {'file': f}
         try:
             info = db_for(src)
@@ -1377,7 +1896,40 @@ def _oracle_cases(ctx):
         envs = sorted(set(t[9] for t in info['time']))
         for _ in range(ctx.n(2, 12)):
             ctx.count('history:shipped')
-            yield 'history', {'db': src, 'steps': _history_steps(rng, names, envs, rng.randint(2, 4))}
+            stratum = rng.choice([None, 'refused-first', 'read-first', 'twice', 'frequency-twice', 'each-name'])
+            yield emit('history', {'db': src, 'steps': _history_steps(rng, names, envs, rng.randint(3, 6), stratum,
+                                                                     summary=True)}, 0.5)
+    # process-order independence: slices of the stream above in fresh Python processes, other orders
+    rng.shuffle(pool)
+    size = ctx.n(22, 160)
+    orders = []
+    sl = pool[:size]
+    orders.append(('leap-first', sorted(sl, key=lambda c: 0 if _is_leap_case(c[1]) else 1), 1))
+    sl = pool[size:2 * size] or pool[:size]
+    orders.append(('subhourly-first', sorted(sl, key=lambda c: -(c[1].get('db', {}).get('steps', 0)
+                                                                 if 'ts' in c[1].get('db', {}).get('freqs', [])
+                                                                 else -1)), 2))
+    sl = pool[2 * size:3 * size] or pool[:size]
+    orders.append(('refused-and-histories-first',
+                   sorted(sl, key=lambda c: 0 if c[0] == 'refused' else 1 if c[0] == 'history' else
+                          2 if c[0] == 'read' else 3), 3))
+    if not ctx.quick or ctx.searching:
+        sl = pool[3 * size:4 * size] or pool[:size]
+        orders.append(('reversed', list(reversed(sl)), 4))
+    for tag, order, hs in orders:
+        order = [list(c) for c in order]
+        ctx.count('process:order=%s' % tag)
+        ctx.count('process:cases', len(order))
+        try:
+            res = _run_in_fresh_process(order, hs)
+        except Exception as e:
+            yield 'process', {'order': order[:3], 'hashseed': hs, 'note': 'worker: %s' % e}
+            continue
+        if any(res):
+            yield 'process', {'order': _shrink_process(order, hs), 'hashseed': hs, 'tag': tag}
+        else:
+            ctx.count('oracle:process')
+            ctx.case(('process', tag, ctx.seed))
 
 
 def oracle(ctx):
@@ -1396,11 +1948,21 @@ LEVEL_TEXT = ('Machine-checked Lean 4 theorems over an executable model of sql.p
               'labelled with the key, under the environment\'s period, in the class of the frequency; the '
               'run-period query returns the corresponding group of collections; annual data gives one value per '
               'run period and key; _extract_all_run_period = one _extract_run_period per environment when rows of '
-              'one interval type are used. The model is compared with the real SQLiteResult on synthetic EnergyPlus '
-              'databases, the shipped files and the static helpers on every run.')
+              'one interval type are used - and the query uses exactly those rows (mixed time tables included). '
+              'Object state machine of SQLiteResult (lazily filled slots; requests = the three queries, the four '
+              'property reads, refused requests): after every history every request is answered as by a fresh object '
+              'of the same file, a refused request leaves every observation (and, for queries, the object) unchanged, '
+              'reads are pure and commute; available_outputs(_info) list exactly the dictionary outputs (J announced '
+              'as Energy/kWh), run_period_indices exactly the environments of the Time table in ascending order, '
+              'reporting_frequency of a one-label file is that label or 60/Interval steps, values_by_output_name is '
+              'the time-major stream of the selected keys. The model is compared with the real SQLiteResult on '
+              'synthetic EnergyPlus databases, the shipped files, the static helpers and on request histories '
+              '(step by step) on every run; the oracle also re-runs slices of its stream in fresh Python processes '
+              'in other orders.')
 LEVEL_NOTE = ('Trusted: Lean kernel; axioms propext/Classical.choice/Quot.sound only; the correspondence run '
               '(agreement on generated databases only); sqlite3 query semantics and row order; the '
               'DateTime/AnalysisPeriod constructors as used by sql.py; IEEE division by 3.6e6 compared bit-exact, '
               'proved over rationals.')
-TECHNIQUE = ('Lean 4 proof (induction over rows / run periods, index extensionality, omega) about a value-'
-             'polymorphic model tied to sql.py by differential correspondence on generated SQLite databases')
+TECHNIQUE = ('Lean 4 proof (induction over rows / run periods / request histories, index extensionality, omega) '
+             'about a value-polymorphic model and object state machine tied to sql.py by differential correspondence '
+             'on generated SQLite databases and request histories')
